@@ -32,6 +32,11 @@ func worldOptsFor(prop string, t *rapid.T) WorldOpts {
 		o.MaxMerges = 3
 		o.BigPct = 4
 		o.HugePct = 45
+	case "C07":
+		o.MaxBuilds = 3
+		o.MaxMerges = 3
+		o.BigPct = 2
+		o.MoreDV = true
 	case "C04", "C11", "C16":
 		o.MaxBuilds = 3
 		o.MaxMerges = 2
@@ -175,6 +180,15 @@ func runWorldCase(c *Case, env *Env) *Result {
 			}
 			res.NonTrivial = true
 			f = checkDocNums(ws)
+		case "C07":
+			// doc values of every document of every segment (built and merged)
+			res.NonTrivial = res.NonTrivial || (len(ws.Docs) > 0 && (nt || ws.Kind == model.Merged))
+			got, ff := Observe("C07", ws.Seg, ObsOpts{SkipDicts: true, SkipStored: true, SkipStats: true})
+			if ff != nil {
+				f = ff
+			} else if d := diffFVsExported(got.DV, ws.Exp().DV); d != "" {
+				f = mismatch("C07", "docvalues", "values", fmt.Sprintf("seg %d (%s, kind %d, %d docs): %s", ws.Idx, ws.Def.Store, ws.Kind, len(ws.Docs), d))
+			}
 		case "C04":
 			res.NonTrivial = res.NonTrivial || nt || len(ws.Docs) == 0 || ws.Kind == model.Merged
 			f = checkRoundtrip(ws, sched, res)
